@@ -291,6 +291,9 @@ def split_known(prop, violations):
             if k.get("signature") and k["signature"] == v.get("sig"):
                 hit = k
                 break
+            if k.get("signature_regex") and re.search(k["signature_regex"], v.get("sig") or ""):
+                hit = k
+                break
         if hit:
             kn.append((v, hit))
         else:
